@@ -95,8 +95,10 @@ func (c *C13Case) build() (*routers.Route, func() *http.Request) {
 			req.Header.Set("Content-Type", c.CT)
 			switch c.GetBody {
 			case "ok":
+				// bodies that honour Close: reading one after it was closed fails
 				body := c.Body
-				req.GetBody = func() (io.ReadCloser, error) { return io.NopCloser(strings.NewReader(body)), nil }
+				req.Body = &closingBody{r: strings.NewReader(body)}
+				req.GetBody = func() (io.ReadCloser, error) { return &closingBody{r: strings.NewReader(body)}, nil }
 			case "fails":
 				req.GetBody = func() (io.ReadCloser, error) { return nil, errors.New("this body cannot be replayed") }
 			}
@@ -122,6 +124,19 @@ func (c *C13Case) build() (*routers.Route, func() *http.Request) {
 	}
 	return route, mk
 }
+
+type closingBody struct {
+	r      io.Reader
+	closed bool
+}
+
+func (b *closingBody) Read(p []byte) (int, error) {
+	if b.closed {
+		return 0, errors.New("read on a closed body")
+	}
+	return b.r.Read(p)
+}
+func (b *closingBody) Close() error { b.closed = true; return nil }
 
 func snapshot(req *http.Request) (q, h map[string][]string, ck map[string]string, body string, readable bool) {
 	q, h, ck = map[string][]string{}, map[string][]string{}, map[string]string{}
